@@ -431,14 +431,16 @@ pub fn check_c05(_case: &CaseSpec, _built: &Built, t: &RunTrace, rs: &RunSpec, e
                     ));
                 }
             }
-            Ev::Poll { run, ready: false } if *run == t.run => {
+            // a Pending poll with a wake-up already signalled (e.g. a budget-induced yield)
+            // is allowed by the statement; Pending with none outstanding is not
+            Ev::Idle { run } if *run == t.run => {
                 if yielded >= t.n || intr_item {
                     return Some(v(
                         Prop::C05,
                         "late-none",
                         t.run,
                         format!(
-                            "poll at seq {seq} returned Pending although {}",
+                            "poll before seq {seq} returned Pending with no wake-up signalled although {}",
                             if intr_item { "the Interrupted item was already yielded" } else { "all functions were already yielded" }
                         ),
                     ));
